@@ -3689,8 +3689,18 @@ def num6(units, R, fn_name='parse_number'):
     for g in good:
         alive |= cfg.reachable(g, forward=False)
 
-    def about_end(x):
-        return any(y.get('k') == 'ref' and y.get('d') == endv for y in walk(x))
+    def about_end(x, depth=0):
+        if any(y.get('k') == 'ref' and y.get('d') == endv for y in walk(x)):
+            return True
+        # a flag that only ever holds a comparison of the end pointer (converted = (start != end); ... if (!converted))
+        for y in walk(x):
+            if y.get('k') == 'ref' and y.get('dk') == 'local' and depth < 2:
+                ds_ = [d_['init'] for d_ in fn.locals() if d_['d'] == y['d'] and 'init' in d_ and const_val(d_['init']) is None]
+                ds_ += [a_['r'] for a_ in assignments(fn) if is_ref(a_['l']) and strip_casts(a_['l'])['d'] == y['d'] and a_['op'] == '=' and
+                        const_val(a_['r']) is None]
+                if ds_ and all(about_end(d_, depth + 1) for d_ in ds_):
+                    return True
+        return False
 
     def not_finite(x, truth):
         """is the edge (x evaluated to truth) one on which the result is known not to be a finite number"""
